@@ -1,7 +1,7 @@
 //! C19 (E1 half) - finish() (parallel index builder) == finish_serial(), lookups exact.
 //! The schedule quantifier is decided by the loom engine (harness-loom); this part enumerates
 //! the graph/input quantifier and adds a labelled native sampling run on large graphs.
-use crate::case::{GCase, Part};
+use vglue::case::{GCase, Part};
 use crate::pipe::*;
 use debruijn::compression::*;
 use debruijn::filter::*;
